@@ -17,6 +17,7 @@ type Clause struct {
 	E     SExpr
 	Src   string
 	Ord   int // ordinal among clauses of the same kind in the block
+	Trusted bool // trustens: assumed at call sites, not proved
 }
 
 type GhostUpd struct {
@@ -161,7 +162,7 @@ type PkgSpec struct {
 	Axioms    []*Clause
 }
 
-var kwRe = regexp.MustCompile(`^(pure|pred|ghostinit|ghost|func|props|requires|ensures|panics|pensures|modifies|ghostparam|uses|inlinecall|dispatch|intwidth|anykinds|repeats|repeatargs|loop|ext|lemma|axiom|inline|trusted|decreases|ispure|noalloc|params|results|end|sort|ufun|callback|before|after|invokes)\b`)
+var kwRe = regexp.MustCompile(`^(pure|pred|ghostinit|ghost|func|props|requires|ensures|trustens|panics|pensures|modifies|ghostparam|uses|inlinecall|dispatch|intwidth|anykinds|repeats|repeatargs|loop|ext|lemma|axiom|inline|trusted|decreases|ispure|noalloc|params|results|end|sort|ufun|callback|before|after|invokes)\b`)
 
 func loadPkgSpec(dir, pkgPath string) (*PkgSpec, error) {
 	ps := &PkgSpec{Path: pkgPath, Macros: map[string]*Macro{}, Ghosts: map[string]*GhostField{}, Contracts: map[string]*Contract{}, Sorts: map[string]bool{}, UFuns: map[string]*UFun{}, Callbacks: map[string]*Contract{}}
@@ -395,7 +396,7 @@ func (ps *PkgSpec) parseFile(file, data string) error {
 			cur.Inline = true
 		case "trusted":
 			cur.Trusted = true
-		case "requires", "ensures", "pensures", "panics", "axiom":
+		case "requires", "ensures", "trustens", "pensures", "panics", "axiom":
 			props, body := splitProps(rest)
 			if kw == "panics" {
 				body = strings.TrimSpace(strings.TrimPrefix(strings.TrimSpace(body), "when"))
@@ -416,8 +417,11 @@ func (ps *PkgSpec) parseFile(file, data string) error {
 			case "requires":
 				cl.Ord = len(cur.Requires)
 				cur.Requires = append(cur.Requires, cl)
-			case "ensures":
+			case "ensures", "trustens":
+				// trustens: a postcondition callers may use but that is NOT proved for the function
+				// (reported as an assumption in the evidence)
 				cl.Ord = len(cur.Ensures)
+				cl.Trusted = kw == "trustens"
 				cur.Ensures = append(cur.Ensures, cl)
 			case "pensures":
 				cl.Ord = len(cur.PEnsures)
